@@ -154,7 +154,7 @@ M_ar_count = [{"name": "new_rows_nonbasic", "slice": "Basis_addedRows.inc", "fin
 M_ac = [{"name": "new_cols_basic", "slice": "Basis_addedCols.inc", "find": "            thedesc.colStatus(i) = primalColStatus(i, theLP);\n            baseId(i)", "replace": "            thedesc.colStatus(i) = dualColStatus(i);\n            baseId(i)"},
         {"name": "ids_are_rows", "slice": "Basis_addedCols.inc", "find": "baseId(i) = theLP->SPxLPBase<R>::cId(i);", "replace": "baseId(i) = theLP->SPxLPBase<R>::rId(i);"},
         {"name": "callee_upper_at_infinity", "slice": "primalColStatus.inc", "find": "   else if(theLP->lower(i) > R(-infinity))\n      return SPxBasisBase<R>::Desc::P_ON_LOWER;", "replace": "   else if(theLP->lower(i) > R(-infinity))\n      return SPxBasisBase<R>::Desc::P_ON_UPPER;"}]
-M_ch = lambda nm: [{"name": "no_restore", "slice": "Basis_%s.inc" % nm, "find": "restoreInitialBasis();", "replace": ""},
+M_ch = lambda nm: [{"name": "no_invalidate", "slice": "Basis_%s.inc" % nm, "find": "invalidate();", "replace": ""},
                    {"name": "callee_cols_basic", "slice": "Basis_restoreInitialBasis.inc", "find": "      for(int i = 0; i < theLP->nCols(); ++i)\n         thedesc.colStatus(i) = primalColStatus(i, theLP);", "replace": "      for(int i = 0; i < theLP->nCols(); ++i)\n         thedesc.colStatus(i) = dualColStatus(i);"},
                    {"name": "callee_ids_skip_row0", "slice": "Basis_restoreInitialBasis.inc", "find": "      for(int i = 0; i < theLP->nRows(); ++i)\n      {\n         thedesc.rowStatus(i) = dualRowStatus(i);\n         baseId(i)", "replace": "      for(int i = 1; i < theLP->nRows(); ++i)\n      {\n         thedesc.rowStatus(i) = dualRowStatus(i);\n         baseId(i)"}]
 U = {"UNIQUE_GONE_ID": ""}
@@ -226,6 +226,7 @@ doc = {
  "desc": "basis-maintenance hooks of spxchangebasis.hpp: after the LP changed, a kept basis has exactly one basic variable per row (explicit count over <= CAP entries), the descriptor and basis ids moved as the LP moved its rows/columns (ghost index), otherwise the basis is given up",
  "rmode": "double (IEEE, bit-precise)",
  "defines": {"CAP": "8", "MATCAP": "12"},
+ "replay": {"cpp": "replay.cpp", "asan": False, "extra_src": ["LIB"]},
  "flags": ["--bounds-check", "--pointer-check"],
  "timeout_s": 300,
  "extracts": [e for e in EXTRACTS if e["as"] in ("Solver_VarStatus.inc", "Solver_Representation.inc", "SPxBasis_SPxStatus.inc", "Desc_Status.inc")],
